@@ -228,6 +228,7 @@ static int apply_spec(request_st *r, connection *c, char *tok) {
         char *c2 = strchr(v, ':'); if (!c2) return -1; *c2 = 0;
         if (k[5] == '1') hdr_parse_h1(r, (unsigned)atoi(v), c2+1);
         else hdr_parse_h2(r, (unsigned)atoi(v), c2+1, 1);
+        if (0 != r->http_status) return -2;     /* (dirtying by a rejected head: case skipped) */
     }
     else if (0 == strcmp(k, "m")) r->http_method = (http_method_t)atoi(v);
     else if (0 == strcmp(k, "v")) r->http_version = (http_version_t)atoi(v);
@@ -303,12 +304,19 @@ static void pbuf(const char *name, const buffer *b) {
     if (0 == b->used) fputc('U', stdout);
     else ltv_puthex(b->ptr, buffer_clen(b));
 }
-static void plist(const char *name, const array *a) {
+static void plist(const char *name, const array *a, int lc) {
     printf(" %s=", name);
     if (0 == a->used) { fputc('-', stdout); return; }
     for (uint32_t i = 0; i < a->used; ++i) {
         const data_string *ds = (const data_string *)a->data[i];
         if (i) fputc(',', stdout);
+        if (lc) {
+            buffer *k = buffer_init();
+            buffer_copy_string_len_lc(k, BUF_PTR_LEN(&ds->key));
+            ltv_puthex(k->ptr, buffer_clen(k));
+            buffer_free(k);
+        }
+        else
         ltv_puthex(ds->key.ptr, buffer_clen(&ds->key));
         fputc(':', stdout);
         ltv_puthex(ds->value.ptr, buffer_clen(&ds->value));
@@ -341,10 +349,10 @@ static void dump(const request_st *r, const connection *c) {
            r->conf.http_parseopts, r->conf.max_request_field_size, (unsigned)r->conf.stream_request_body);
     printf(" qhl=%u", r->rqst_header_len);
     pbits("qht", r->rqst_htags);
-    plist("qh", &r->rqst_headers);
+    plist("qh", &r->rqst_headers, 1);
     pbuf("usch", &r->uri.scheme); pbuf("uauth", &r->uri.authority); pbuf("upath", &r->uri.path); pbuf("uq", &r->uri.query);
     pbuf("pp", &r->physical.path); pbuf("pb", &r->physical.basedir); pbuf("pd", &r->physical.doc_root); pbuf("pr", &r->physical.rel_path);
-    plist("env", &r->env);
+    plist("env", &r->env, 0);
     printf(" rbl=%lld sp=%lld host=", (long long)r->reqbody_length, (long long)r->resp_body_scratchpad);
     if (r->http_host) ltv_puthex(r->http_host->ptr, buffer_clen(r->http_host)); else fputs("none", stdout);
     printf(" sn=%s", r->server_name == &r->uri.authority ? "auth" : r->server_name == &r->server_name_buf ? "buf"
@@ -352,7 +360,7 @@ static void dump(const request_st *r, const connection *c) {
     pbuf("tgt", &r->target); pbuf("to", &r->target_orig); pbuf("pi", &r->pathinfo); pbuf("snb", &r->server_name_buf);
     printf(" rhl=%u", r->resp_header_len);
     pbits("rht", r->resp_htags);
-    plist("rh", &r->resp_headers);
+    plist("rh", &r->resp_headers, 0);
     printf(" fin=%d started=%d chunked=%d dechunk=%d rep=%d loops=%d ka=%d async=%d tmp=%d gw=%d ehs=%d",
            r->resp_body_finished, r->resp_body_started, r->resp_send_chunked, r->resp_decode_chunked,
            r->resp_header_repeated, r->loops_per_request, r->keep_alive, r->async_callback,
@@ -464,10 +472,10 @@ int main(void) {
             con = con_new();
             request_st *r = pooled ? request_acquire(con) : &con->request;
             int bad = 0;
-            for (int i = 2; i < ltv_ntok; ++i) if (0 != apply_spec(r, con, ltv_tok[i])) bad = 1;
+            for (int i = 2; i < ltv_ntok && !bad; ++i) bad = apply_spec(r, con, ltv_tok[i]);
             memset(fake_reset_calls, 0, sizeof(fake_reset_calls));
             request_st *n = bad ? NULL : run_op(op, r, con, pooled);
-            if (NULL == n) puts("bad-op");
+            if (NULL == n) puts(-2 == bad ? "skip" : "bad-op");
             else {
                 if (pooled) printf("same=%d ", n == r);
                 dump(n, con);
@@ -502,7 +510,10 @@ int main(void) {
             con = con_new();
             r = pooled ? request_acquire(con) : &con->request;
             int bad = 0;
-            for (int i = 4; i < semi; ++i) if (0 != apply_spec(r, con, ltv_tok[i])) bad = 1;
+            for (int i = 4; i < semi && !bad; ++i) {
+                bad = apply_spec(r, con, ltv_tok[i]);
+                if (-2 == bad) bad = 0;          /* (dirtied by a rejected request head: fine) */
+            }
             request_st *n = bad ? NULL : run_op(op, r, con, pooled);
             if (NULL == n) fputs("bad-op", stdout);
             else {
